@@ -85,6 +85,13 @@ GhostAgrees ==
     /\ \A k \in Dom(c) : g.val[k] = c.store[k].val
     /\ FrequencyPolicy(cfg.policy) => \A k \in Dom(c) : g.gh[k] = c.store[k].hits
 
+\* ... and is a function of the engine state: this is what lets the edge-conformance check look at
+\* single transitions of the real engine without their history
+GhostFromState ==
+  ~last.panic =>
+    /\ cfg.policy = "fifo" => g.fifo = c.order
+    /\ RecencyPolicy(cfg.policy) /\ (IsAsync(cfg) => AsyncRecencyGuard(cfg)) => g.lru = c.order
+
 StepOK == \A id \in EngineMonitorIds : Monitor(id, cfg, c, last', c', g)
 
 MonitorsHold == [][StepOK]_vars
